@@ -17,7 +17,11 @@ def build_inputs(chk, mdl):
     rnd = parsesuite.random_uris(chk.rng, 6000 if tier == "quick" else 120000)
     corpus = parsesuite.repo_corpus()
     narrow = sorted(set(suite + rnd + corpus))
-    wide = sorted(set(parsesuite.widen(chk.rng, f) for f in chk.rng.sample(narrow, min(len(narrow), 4000 if tier == "quick" else 40000))))
+    wide = set(parsesuite.widen(chk.rng, f) for f in chk.rng.sample(narrow, min(len(narrow), 4000 if tier == "quick" else 40000)))
+    # systematic aliases: every position of every short suite string of each accepting control state replaced by code point + 256
+    for f in chk.rng.sample(suite, min(len(suite), 600 if tier == "quick" else 6000)):
+        wide.update(parsesuite.widen_all(f, 24))
+    wide = sorted(wide)
     return nstates, suite, rnd, corpus, narrow, wide
 
 def run(chk):
